@@ -270,9 +270,12 @@ type FSRoot struct {
 	Mutation *Mutation
 }
 
-func (c *Common) Echo(s string, b bool) string {
+func (c *Common) Echo(s string, b bool) (interface{}, error) {
 	c.Xr.record(c.Xn, "echo", map[string]interface{}{"s": s, "b": b})
-	return EchoResult(s, b)
+	if err := c.Xr.fault(CallKey{c.Xn.ID, "echo"}); err != nil {
+		return nil, err
+	}
+	return EchoResult(s, b), nil
 }
 
 func (c *Common) call(field string) (interface{}, error) {
